@@ -156,6 +156,23 @@ def prove(prop):
             "checker_cmd": "make -C coq Properties/%s.vo  (coqc 8.16.1, full .vo; Print Assumptions per theorem)" % prop}
 
 
+def coqchk(prop):
+    """Re-check Properties/<prop>.vo and everything it depends on with the independent checker; returns its context summary."""
+    rc, out = sh(["coqchk", "-silent", "-o", "-Q", ".", "CsModel", "CsModel.Properties.%s" % prop], cwd=COQ, timeout=3000)
+    if rc != 0:
+        raise Broken("coqchk rejects Properties/%s.vo" % prop, out[-3000:])
+    m = re.search(r"\* Axioms:(.*?)\n\s*\n\* Constants/Inductives relying on type-in-type:(.*?)\n\s*\n\* Constants/Inductives relying on unsafe \(co\)fixpoints:(.*?)\n\s*\n\* Inductives whose positivity is assumed:(.*?)\n", out, re.S)
+    if not m:
+        raise Broken("coqchk output not understood for %s" % prop, out[-2000:])
+    fields = [re.sub(r"\s+", " ", x).strip() for x in m.groups()]
+    axioms = [] if fields[0] == "<none>" else [a for a in fields[0].split(" ") if a]
+    extra = set(axioms) - ALLOWED_AXIOMS
+    if extra or any(f != "<none>" for f in fields[1:]):
+        raise Broken("coqchk: %s depends on axioms / unchecked features outside the trusted base: %s" % (prop, fields), out[-2000:])
+    return {"cmd": "coqchk -silent -o -Q coq CsModel CsModel.Properties.%s" % prop, "axioms": axioms,
+            "type_in_type": fields[1], "unsafe_fixpoints": fields[2], "assumed_positivity": fields[3]}
+
+
 # ------------------------------------------------------------------------------------------------
 # extraction + OCaml model runner
 
